@@ -299,6 +299,10 @@ void mon_call_ret(proc *pr, int64_t ret)
     if (cmb_process_current() != pr->pp) viol("C03", "wrong-process", "process %d resumed but cmb_process_current() differs", pr->id);
     if (ret != CMB_PROCESS_SUCCESS) pr->last_nonzero_ret_seq = W.seq + 1;
     if (ret == CMB_PROCESS_PREEMPTED) pr->last_preempted_ret_seq = W.seq + 1;
+    /* a timer that carried the success code and whose time has passed is history: it ended a yield, or it hit a hold or a wait that
+     * went on waiting because the code was not its own wake-up */
+    for (int i = 0; i < pr->ncs; i++)
+        if (pr->cs[i].kind == CK_TIMER && pr->cs[i].value == CMB_PROCESS_SUCCESS && pr->cs[i].due < now && (pr->cs[i].state == CS_ARMED || pr->cs[i].state == CS_MAYBE)) pr->cs[i].state = CS_DEAD;
     switch (pr->op) {
     case OP_HOLD: {
         cause *hc = NULL;
@@ -315,6 +319,13 @@ void mon_call_ret(proc *pr, int64_t ret)
     case OP_YIELD:
         if (ret == CMB_PROCESS_SUCCESS) {
             bool ok = false;
+            for (int i = 0; i < pr->ncs && !ok; i++) {       /* one of its timers carries the success code, is due now and has just fired (its event is gone) */
+                cause *c = &pr->cs[i];
+                if (c->kind == CK_TIMER && c->value == CMB_PROCESS_SUCCESS && (c->state == CS_ARMED || c->state == CS_MAYBE) && c->due == now && !cmb_event_is_scheduled(c->handle)) {
+                    c->state = CS_DELIVERED; ok = true; PROBE("c04.yield_ended_by_timer_with_success_code");
+                    fired[nfired % MAXFIRED].h = c->handle; fired[nfired % MAXFIRED].t = now; nfired++;
+                }
+            }
             for (int i = 0; i < pr->ncs && !ok; i++) {
                 cause *c = &pr->cs[i];
                 if (c->kind == CK_RESUME && c->value == CMB_PROCESS_SUCCESS && c->state == CS_ARMED && c->due == now) { c->state = CS_DELIVERED; ok = true; }
@@ -338,7 +349,17 @@ void mon_call_ret(proc *pr, int64_t ret)
         break;
     case OP_WAITT: {
         const uint64_t h = pr->waitt_handle;
-        const bool fired_now = timer_fired_at(h, now);
+        bool fired_now = timer_fired_at(h, now);
+        if (!fired_now && pr->obj >= 0 && pr->obj < W.np && !cmb_event_is_scheduled(h)) {
+            /* a timer that carries the success code leaves no trace in its owner when it hits a hold or a wait that goes on
+             * waiting: it has fired if it was due now, is gone, and nobody cancelled or cleared it */
+            const proc *o = &PR[pr->obj];
+            for (int i = 0; i < o->ncs; i++)
+                if (o->cs[i].kind == CK_TIMER && o->cs[i].handle == h && o->cs[i].value == CMB_PROCESS_SUCCESS && o->cs[i].due == now) {
+                    if (o->cs[i].state == CS_ARMED || o->cs[i].state == CS_DELIVERED) fired_now = true;
+                    else if (o->cs[i].state == CS_MAYBE) fired_now = (ret == CMB_PROCESS_SUCCESS);   /* armed between an interrupt and its delivery: cleared or not, see timers_after_notice */
+                }
+        }
         if (ret == CMB_PROCESS_SUCCESS || ret == CMB_PROCESS_CANCELLED) {
             if (cmb_event_is_scheduled(h))
                 viol("C04", "waitevent-returned-early", "process %d: wait for timer event %" PRIu64 " of process %d returned %" PRId64 " at t=%g while the event is still scheduled", pr->id, h, pr->obj, ret, now);
@@ -837,6 +858,25 @@ void mon_after_event(void)
 
     for (int e = 0; e < MAXHEV; e++) hev_check_vanished(e);
 
+    /* a timer that carries the success code leaves no trace in a process it finds in a hold or a wait (the call goes on waiting):
+     * it has fired if it was due, its event is gone and nobody cancelled or cleared it (those mark the cause at once) */
+    for (int i = 0; i < W.np; i++) {
+        proc *pr = &PR[i];
+        if (!pr->started || pr->finished) continue;
+        /* a preemption clears the victim's timers when it happens, before the notice is delivered: then the event is gone because
+         * it was cancelled */
+        bool preempted = false;
+        for (int k = 0; k < pr->ncs; k++) if (pr->cs[k].kind == CK_PREEMPT && pr->cs[k].state == CS_ARMED) preempted = true;
+        for (int k = 0; k < pr->ncs; k++) {
+            cause *c = &pr->cs[k];
+            if (c->kind != CK_TIMER || c->value != CMB_PROCESS_SUCCESS || c->state != CS_ARMED || c->due > now || cmb_event_is_scheduled(c->handle)) continue;
+            if (preempted) { c->state = CS_DEAD; continue; }
+            c->state = CS_DELIVERED;
+            fired[nfired % MAXFIRED].h = c->handle; fired[nfired % MAXFIRED].t = now; nfired++;
+            PROBE("c04.timer_with_success_code_hit_a_call_that_went_on_waiting");
+        }
+    }
+
     /* C13: remember whether a waiter's predicate has been false while it waited */
     for (int i = 0; i < W.np; i++) if (PR[i].op == OP_CWAIT && !PR[i].finished) {
         if (!pred_now(i)) PR[i].cond_seen_false = true;
@@ -912,7 +952,11 @@ void mon_after_event(void)
         for (int r = 0; r < W.nres; r++)
             if (W.res[r]->holder == pr->pp) viol("C09", "resource-not-released", "ended process %d is still the holder of resource %d", i, r);
         if (!pr->start_pending) {
-            const uint64_t n = cmb_event_pattern_count(CMB_ANY_ACTION, pr->pp, CMB_ANY_OBJECT) - hev_count_for_subject(pr->pp);
+            /* not counting what the harness itself sent it after an earlier end in this instant (a resume for a process stopped in its
+             * yield, which may since have been restarted and have ended again): such an event is dropped when its turn comes */
+            uint64_t n = cmb_event_pattern_count(CMB_ANY_ACTION, pr->pp, CMB_ANY_OBJECT) - hev_count_for_subject(pr->pp);
+            const uint64_t late = (pr->late_resume_n > 0 && pr->late_resume_t == now) ? pr->late_resume_n : 0;
+            n = n > late ? n - late : 0;
             if (n != 0) viol("C09", "event-pending-for-ended-process", "%" PRIu64 " event(s) addressed to process %d are still scheduled right after the event in which it ended (t=%g)", n, i, now);
         }
     }
